@@ -12,6 +12,7 @@ import (
 	"encoding/json"
 	"errors"
 	"fmt"
+	"io"
 	"net/http"
 	"net/http/httptest"
 	"net/url"
@@ -84,6 +85,9 @@ type Cfg struct {
 	ExpireSetupFirst bool     // expire.Setup is called before Authboss.Init (its event hooks run before the modules')
 	TwoFASetupFirst  bool     // the 2FA modules' Setup() is called before Authboss.Init (the README prescribes no order)
 	AccessLog        string   // "" none | "current" | "load": application middleware between LoadClientState and expire/remember that resolves the visitor through ab.CurrentUser / ab.LoadCurrentUser (an access log, a data injector) and ignores the outcome
+	StreamBodies     bool     // the application's pages stream their bodies with io.Copy instead of calling WriteHeader/Write
+	BCryptCost       int      // Modules.BCryptCost (0: 4, the cost of every seeded hash); 5 = the cost was raised after the accounts were created
+	AppendedRules    bool     // the application appended rules of its own to the shipped body reader's login / recover_start / register rulesets
 	PersistArbitrary bool     // the user type stores every key PutArbitrary hands it (only sensible with an explicit RegWhitelist)
 }
 
@@ -187,6 +191,7 @@ type Rec struct {
 	Arbitrary   []map[string]string
 
 	HandlerErr   string
+	DecoyCalls   int    // backend calls this request caused on the OTHER instance of the process (must be 0)
 	Wrote        bool   // the application stack released a status line or body bytes to the client
 	AppHook      string // "<event>:<mode>" when an armed application listener fired in this request
 	HandlerRan   bool
@@ -243,7 +248,8 @@ type World struct {
 	// function runs (typically another browser's whole request), then the call proceeds. YieldedAt
 	// lists the operations at which a plan entry actually fired.
 	Yield     map[int]func()
-	quiet     bool // backend calls made by the application's own middleware: not recorded, not faultable
+	decoy     *World // the second instance created next to this one (nil: none)
+	quiet     bool   // backend calls made by the application's own middleware: not recorded, not faultable
 	YieldedAt []string
 	// HookMode arms the application's event listeners for the next request ("handled" | "error").
 	HookMode string
@@ -308,6 +314,9 @@ func New(cfg Cfg, salt string) (w *World, err error) {
 	ab.Config.Paths.TwoFactorEmailAuthNotOK = Path2FAEmail
 
 	ab.Config.Modules.BCryptCost = 4
+	if cfg.BCryptCost != 0 {
+		ab.Config.Modules.BCryptCost = cfg.BCryptCost
+	}
 	ab.Config.Modules.MailNoGoroutine = true
 	ab.Config.Modules.RegisterPreserveFields = append([]string(nil), cfg.PreserveFields...)
 	ab.Config.Modules.RecoverLoginAfterRecovery = cfg.RecoverLogin
@@ -357,6 +366,13 @@ func New(cfg Cfg, salt string) (w *World, err error) {
 	ab.Config.Core.Responder = defaults.NewResponder(ab.Config.Core.ViewRenderer)
 	ab.Config.Core.Redirector = defaults.NewRedirector(ab.Config.Core.ViewRenderer, authboss.FormValueRedirect)
 	br := defaults.NewHTTPBodyReader(cfg.JSON, false)
+	if cfg.AppendedRules {
+		// an application that extends the shipped rulesets the way the README shows — by appending: a
+		// (generous) length limit on the identifier of the login and recovery forms, a name rule for registration
+		br.Rulesets["login"] = append(br.Rulesets["login"], defaults.Rules{FieldName: "email", MaxLength: 2048})
+		br.Rulesets["recover_start"] = append(br.Rulesets["recover_start"], defaults.Rules{FieldName: "email", MaxLength: 2048})
+		br.Rulesets["register"] = append(br.Rulesets["register"], defaults.Rules{FieldName: "name", MaxLength: 2048})
+	}
 	if cfg.RegWhitelist != nil {
 		br.Whitelist["register"] = append([]string(nil), cfg.RegWhitelist...)
 	}
@@ -479,9 +495,11 @@ func New(cfg Cfg, salt string) (w *World, err error) {
 			}
 		}
 		d.Mount, d.JSON, d.TwoFAEmail, d.RecoverLogin = "/other", !cfg.JSON, false, !cfg.RecoverLogin
-		if _, err := New(d, "decoy"); err != nil {
+		dw, err := New(d, "decoy")
+		if err != nil {
 			return nil, err
 		}
+		w.decoy = dw
 		verifclock.Set(w.now)
 	}
 	return w, nil
@@ -505,6 +523,12 @@ func (w *World) buildStack() http.Handler {
 			}
 			w.cur.Probe = p
 			rw.Header().Set("Content-Type", "text/plain")
+			if w.Cfg.StreamBodies {
+				// a page that streams its body (a proxied response, a file, a pipe): no explicit status
+				// line, io.Copy from a source that is nothing but a Reader
+				io.Copy(rw, onlyReader{strings.NewReader("probe:" + route)})
+				return
+			}
 			rw.WriteHeader(200)
 			rw.Write([]byte("probe:" + route))
 		})
@@ -613,6 +637,9 @@ func (w *World) buildStack() http.Handler {
 	}
 	return ab.LoadClientStateMiddleware(h)
 }
+
+// HasDecoy reports whether a second instance lives next to this one.
+func (w *World) HasDecoy() bool { return w.decoy != nil }
 
 // Handler exposes the full application stack.
 func (w *World) Handler() http.Handler { return w.handler }
@@ -919,6 +946,10 @@ func (w *World) DoOn(h http.Handler, b *Browser, rq Req) *Rec {
 	rec.SessIn = w.Sess.Of(b)
 	rec.Before = w.Store.Snapshot()
 	w.cur, w.fidx = rec, 0
+	decoySeq := 0
+	if w.decoy != nil {
+		decoySeq = w.decoy.seq
+	}
 	rr := httptest.NewRecorder()
 	func() {
 		defer func() {
@@ -935,6 +966,9 @@ func (w *World) DoOn(h http.Handler, b *Browser, rq Req) *Rec {
 	w.Yield = nil
 	w.HookMode = ""
 	rec.After = w.Store.Snapshot()
+	if w.decoy != nil {
+		rec.DecoyCalls = w.decoy.seq - decoySeq
+	}
 	rec.Status = rr.Code
 	rec.Header = rr.Header().Clone()
 	rec.RespBody = rr.Body.String()
@@ -1175,3 +1209,16 @@ func (n *noteWriter) Write(b []byte) (int, error) {
 	*n.wrote = true
 	return n.ResponseWriter.Write(b)
 }
+
+// ReadFrom: like net/http's own response writer, the base writer can be streamed into.
+func (n *noteWriter) ReadFrom(r io.Reader) (int64, error) {
+	*n.wrote = true
+	b, err := io.ReadAll(r)
+	k, _ := n.ResponseWriter.Write(b)
+	return int64(k), err
+}
+
+// onlyReader hides every other method of the reader it wraps (no WriteTo: io.Copy must go through the writer).
+type onlyReader struct{ r io.Reader }
+
+func (o onlyReader) Read(p []byte) (int, error) { return o.r.Read(p) }
